@@ -313,6 +313,20 @@ func countCases(big bool) []ccase {
 			if k != 2 {
 				continue
 			}
+			// all count / length fields of the variant inflated together
+			if len(v.fields) > 1 {
+				for _, val := range []uint64{0, 255, 1 << 16, 1 << 22, 1<<32 - 1} {
+					m := v.bytes
+					for _, f := range v.fields {
+						x := val
+						if max := uint64(1)<<(8*uint(f.width)) - 1; x > max {
+							x = max
+						}
+						m = putField(m, f, x)
+					}
+					emit(fmt.Sprintf("%s/all=%d", d0, val), m, v.nest)
+				}
+			}
 			for _, f := range v.fields {
 				cur := 0
 				for i := 0; i < f.width && f.off+i < len(v.bytes); i++ {
@@ -448,6 +462,8 @@ func entryCount(b mp4.Box) int {
 			return int(t.Senc.SampleCount)
 		}
 		return 0
+	case *mp4.HvcCBox:
+		return len(t.NaluArrays)
 	case *mp4.FtypBox:
 		return len(t.CompatibleBrands())
 	case *mp4.StypBox:
@@ -479,7 +495,7 @@ func countJob(data []byte, sr bool) string {
 
 var modelled = map[string]bool{"trun": true, "stts": true, "ctts": true, "stsc": true, "stsz": true, "stco": true, "co64": true,
 	"stss": true, "sdtp": true, "saiz": true, "saio": true, "senc": true, "sbgp": true, "subs": true, "elst": true, "tfra": true, "sidx": true, "sgpd": true,
-	"pssh": true, "ssix": true, "hint": true, "leva": true, "uuid": true, "ftyp": true, "styp": true}
+	"pssh": true, "ssix": true, "hint": true, "leva": true, "uuid": true, "ftyp": true, "styp": true, "hvcC": true}
 
 func isModelled(c ccase) bool {
 	return len(c.data) >= 16 && modelled[string(c.data[4:8])]
